@@ -13,10 +13,10 @@ Lemma f32_valid_f32v x : f32_valid x = f32v x.
 Proof. reflexivity. Qed.
 
 Lemma mk_items_ix : forall pts ws i, length pts = length ws ->
-  map ix (mk_items i pts ws) = seq i (length pts).
+  map ix (mk_items i pts ws) = seq (N.to_nat i) (length pts).
 Proof.
   induction pts as [|p t IH]; intros [|w ws] i H; cbn [mk_items map length seq] in *; try discriminate; try reflexivity.
-  f_equal. apply IH. lia.
+  rewrite IH by lia. f_equal. f_equal. lia.
 Qed.
 Lemma mk_items_co : forall pts ws i, length pts = length ws ->
   map co (mk_items i pts ws) = to32 pts.
@@ -49,15 +49,15 @@ Proof.
     pose proof (rcb_core_bisect_tree spec_float flt fle (f32_mid (v_safe_mid v)) f32_sub f32_add f32_zero f32_inf
                   (tol_test tol) (v_old v) (v_by_coord v) (v_probe_max v) f32v
                   flt_irrefl flt_negtrans fle_flt
-                  fuel sched D k (mk_items 0 pts ws) (sumZ ws) bb p0 p) as T.
+                  fuel sched D k (mk_items 0%N pts ws) (sumZ ws) bb p0 p) as T.
     destruct T as (A & B & Cc).
     + rewrite Forall_forall. intros it Hit. unfold vitem.
-      assert (Hc : In (co it) (to32 pts)) by (rewrite <- (mk_items_co pts ws 0%nat Hlen); apply in_map, Hit).
+      assert (Hc : In (co it) (to32 pts)) by (rewrite <- (mk_items_co pts ws 0%N Hlen); apply in_map, Hit).
       unfold coords_ok in Hok. rewrite Forall_forall in Hok. exact (Hok _ Hc).
     + rewrite mk_items_ix by exact Hlen. rewrite E2. reflexivity.
     + unfold pts. destruct ws; [cbn in Hlen; discriminate|]. cbn. discriminate.
     + exact H.
-    + rewrite (mk_items_co pts ws 0%nat Hlen) in B. split; [lia|]. split; [exact B|]. intros _; exact Cc.
+    + rewrite (mk_items_co pts ws 0%N Hlen) in B. split; [lia|]. split; [exact B|]. intros _; exact Cc.
 Qed.
 
 Lemma nth_error_combine {A B} : forall (a : list A) (b : list B) i x y,
